@@ -509,6 +509,18 @@ def execute(case):
                 viol('reported_x0_is_not_the_value_of_the_entry', {'entry': [i, list(idx), part], 'got': cx0, 'want': x0})
                 stop = True
                 break
+            # the step handed to test_fn is the requested dx (or dx scaled by |x0| under relative_dx): one step per entry,
+            # not something that drifts from entry to entry
+            try:
+                cdxf = float(np.real(cdx))
+            except Exception:  # noqa
+                cdxf = float('nan')
+            if not any(abs(cdxf - ref_) <= 1e-12 * abs(ref_) for ref_ in (opts['dx'], opts['dx'] * sf)):
+                viol('reported_dx_is_not_the_step_of_the_entry',
+                     {'entry': [i, list(idx), part], 'got': cdx, 'dx': opts['dx'], 'relative_scale': sf},
+                     relative_dx=bool(opts['relative_dx']))
+                stop = True
+                break
             g = own[o][i]
             gk = 0.0 if g is None else (g[idx] if g.ndim else g[()])
             want_an = float(np.real(gk)) if part == 're' else float(np.imag(gk))
